@@ -546,7 +546,13 @@ def struct_template(d, gen_id, mode="full", ctx=None):
         if f["post"] == "and_then":
             D.append(f"    //@ replace R4: .and_then(chk_{i}) ==> .and_then(|__x: T{i}| -> (r: Result<T{i}>) ensures r == chk_{i}_spec(__x) {{ chk_{i}(__x) }})")
         loc = f"idx_loc({nm}@, __len as nat)" if f["multiple"] else f"{nm}@"
-        D.append(f"    //@ closure {CB + addressable.index(i)}: |e: Error| -> (r: Error) ensures r == e_at(e_with_span(e, meta_span(*__inner)), {loc})")
+    if addressable:
+        # R3: the per-field extractor's error closure gets a typed header that restates its own body in spec terms - derived from the code
+        # (any parameter name, any arm order); whether the location and the span are the RIGHT ones is decided by the invariant against the oracle
+        D.append("    //@ replace R3 opt: .map_err(|$_| $_.with_span(&__inner).at($_)) ==> .map_err(|$1: Error| -> (r: Error) ensures r == e_at(e_with_span($1, meta_span(*__inner)), display_spec($3)) { $2.with_span(&__inner).at($3) })")
+        D.append("    //@ replace R3 opt: .map_err(|$_| $_.at($_)) ==> .map_err(|$1: Error| -> (r: Error) ensures r == e_at($1, display_spec($3)) { $2.at($3) })")
+        D.append("    //@ replace R3 opt: .map_err(|$_| $_.with_span(&__inner).at(&crate::fmt_idx($_, __len))) ==> .map_err(|$1: Error| -> (r: Error) ensures r == e_at(e_with_span($1, meta_span(*__inner)), idx_loc($3@, __len as nat)) { $2.with_span(&__inner).at(&crate::fmt_idx($3, __len)) })")
+        D.append("    //@ replace R3 opt: .map_err(|$_| $_.at(&crate::fmt_idx($_, __len))) ==> .map_err(|$1: Error| -> (r: Error) ensures r == e_at($1, idx_loc($3@, __len as nat)) { $2.at(&crate::fmt_idx($3, __len)) })")
     nclos = len(addressable)
     if flat is not None and names:
         D.append(f"    //@ closure {CB + nclos}: |e: Error| -> (r: Error) ensures r == e_sibling_alts(e, {names_seq})")
